@@ -2,6 +2,7 @@ package main
 
 import (
 	"os"
+	"sort"
 	"strings"
 )
 
@@ -130,6 +131,16 @@ func buildPlan(id string, pinned map[string]string, tier string) *Plan {
 		for _, pk := range sortedStrKeys(edwardsPkgs("/repo")) {
 			p.Units = append(p.Units, Unit{Pkg: pk, Tags: "", Groups: []string{"edwardscodec"}})
 		}
+		{
+			var gts []string
+			for pk := range gtCodecs("/repo") {
+				gts = append(gts, pk)
+			}
+			sort.Strings(gts)
+			for _, pk := range gts {
+				p.Units = append(p.Units, Unit{Pkg: pk, Tags: "", Groups: []string{"gtcodec"}})
+			}
+		}
 		for _, pk := range marshalPkgs("/repo") {
 			if _, err := os.Stat("/repo/" + strings.TrimPrefix(pk, "./") + "/zz_verif_contracts_stream.go"); err == nil {
 				p.Units = append(p.Units, Unit{Pkg: pk, Tags: "", Groups: []string{"stream"}})
@@ -142,7 +153,7 @@ func buildPlan(id string, pinned map[string]string, tier string) *Plan {
 		p.NotCovered = []string{"G2 decoders over an extension field: the sign selection of the recovered Y and the value Y^2 = X^3 + b' are not stated (the extension-field methods are opaque calls: the clauses say that Legendre and Sqrt were applied to the same YSquared object and that Legendre != -1)",
 			"encoders (Bytes / RawBytes) and the round trip Bytes/SetBytes: not under contract; streaming Encoder / Decoder: the slices-of-points cases of the decoder (parallel Y recovery), the reflection fallback, the byte counters and the length prefixes are not under contract (the other dynamic types are: one contract variant each)",
 			"twisted Edwards decoder: the sign selection and the value of x are not stated (acceptance implies a canonical y and an existing square root), the format has no subgroup test"}
-		p.Note = "G2Affine.setBytes of the 7 curves with a G2 decoder: same acceptance-implies-check clauses with all 2k (raw) / k (compressed) base-field coordinates decoded canonically (k = extension degree), the Legendre test and the square root applied to the same value. G1Affine.setBytes / unsafeSetCompressedBytes of every curve with the generated decoder: a nil error is returned only if the flag pattern is valid, the coordinates decoded canonically, infinity encodings are all-zero (every payload byte of the compressed, resp. raw, length is zero: stated over the input bytes), an uncompressed point passed the subgroup test or (when disabled) the on-curve test, a compressed point has Y = +-sqrt(X^3+b) with the sign selected by the flag and passed the subgroup test when enabled; byte counts match; short buffers give errors (no panic: all slice bounds are obligations). Streaming codecs, one contract variant per dynamic type of the value (Decoder.Decode: *[][]uint64, *[]uint64, *fr/fp.Element, *[]fr/fp.Element, *[][]fr.Element, *[][][]fr.Element, *G1Affine, *G2Affine; Encoder.encode / encodeRaw: the corresponding values and []G1Affine / []G2Affine): nil is returned only if every read / write and every element or point codec that was called returned no error (no error of an earlier item is overwritten by a later one), and a point is written as exactly the bytes its own Bytes / RawBytes returned. Twisted Edwards PointAffine.SetBytes (8 packages): total, refuses short buffers, accepts only if the y-coordinate was decoded canonically and the square root defining x exists."
+		p.Note = "G2Affine.setBytes of the 7 curves with a G2 decoder: same acceptance-implies-check clauses with all 2k (raw) / k (compressed) base-field coordinates decoded canonically (k = extension degree), the Legendre test and the square root applied to the same value. G1Affine.setBytes / unsafeSetCompressedBytes of every curve with the generated decoder: a nil error is returned only if the flag pattern is valid, the coordinates decoded canonically, infinity encodings are all-zero (every payload byte of the compressed, resp. raw, length is zero: stated over the input bytes), an uncompressed point passed the subgroup test or (when disabled) the on-curve test, a compressed point has Y = +-sqrt(X^3+b) with the sign selected by the flag and passed the subgroup test when enabled; byte counts match; short buffers give errors (no panic: all slice bounds are obligations). Streaming codecs, one contract variant per dynamic type of the value (Decoder.Decode: *[][]uint64, *[]uint64, *fr/fp.Element, *[]fr/fp.Element, *[][]fr.Element, *[][][]fr.Element, *G1Affine, *G2Affine; Encoder.encode / encodeRaw: the corresponding values and []G1Affine / []G2Affine): nil is returned only if every read / write and every element or point codec that was called returned no error (no error of an earlier item is overwritten by a later one), and a point is written as exactly the bytes its own Bytes / RawBytes returned. Twisted Edwards PointAffine.SetBytes (8 packages): total, refuses short buffers, accepts only if the y-coordinate was decoded canonically and the square root defining x exists. GT decoders (E12 / E24 / E6.SetBytes of the 7 pairing curves): accept only buffers of SizeOfGT bytes all of whose coordinates were decoded by the strict field decoder from one-element windows (the layout of the windows is not stated)."
 		return p
 	case "C17":
 		p := &Plan{ID: id}
